@@ -36,3 +36,156 @@ package backendpb
 //@   ensures a-failed-send-is-reported: sendFails > old(sendFails) ==> err != nil
 //@   ensures sendFails <= old(sendFails) + 1
 //@   loop 1 invariant sendFails == old(sendFails)
+
+// ---------------------------------------------------------------------------
+// C14: what a synchronisation installs for a profile is what the backend
+// sent - every switch from the field it is named after, the settings that the
+// backend marks as disabled or absent are off, each weekday gets its own
+// schedule interval, and a device is built from its own settings.
+//
+// Assumed helpers: error collection and metrics are observers; ID / name
+// constructors validate and return their argument; address parsing is a
+// function of the bytes.
+//@ import agd github.com/AdguardTeam/AdGuardDNS/internal/agd
+//@ import filter github.com/AdguardTeam/AdGuardDNS/internal/filter
+//@ import access github.com/AdguardTeam/AdGuardDNS/internal/access
+//@ import agdpasswd github.com/AdguardTeam/AdGuardDNS/internal/agdpasswd
+//@ import agdtime github.com/AdguardTeam/AdGuardDNS/internal/agdtime
+//@ import netip net/netip
+//@ import durationpb google.golang.org/protobuf/types/known/durationpb
+
+//@ func (*SafeBrowsingSettings).toInternal
+//@   property C14
+//@   nilrecv
+//@   modifies nothing
+//@   ensures absent-means-off: x == nil ==> c != nil && !c.Enabled && !c.DangerousDomainsEnabled && !c.NewlyRegisteredDomainsEnabled
+//@   ensures every-switch-from-its-own: x != nil ==> c != nil && c.Enabled == x.Enabled && c.DangerousDomainsEnabled == x.BlockDangerousDomains && c.NewlyRegisteredDomainsEnabled == x.BlockNrd
+
+//@ func blockedSvcsToInternal
+//@   modifies nothing
+// (durationpb, LoadLocation: contracts/ext/pb.spec)
+//@ func (*filter.DayInterval).Validate
+//@   modifies nothing
+
+// builtFrom[i]: the backend's day range an interval was built from.  dayFrom(i, r):
+// the interval i of a weekday was built from the range r of that day; no
+// range, no interval.  What "built from" means is asserted where the interval
+// is made: its start is the range's start in minutes and its end the range's
+// end in minutes plus one, each cut to sixteen bits the way the conversion does.
+//@ ghost builtFrom map[*filter.DayInterval]*DayRange
+//@ pred dayFrom(i *filter.DayInterval, r *DayRange) = (r == nil ==> i == nil) && (r != nil ==> i != nil && builtFrom[i] == r)
+//@ pred rangeOK(r *DayRange) = r != nil ==> r.Start != nil && r.End != nil
+//@ pred schedOK(x *ScheduleSettings) = x != nil ==> x.WeeklyRange != nil && rangeOK(x.WeeklyRange.Sun) && rangeOK(x.WeeklyRange.Mon) && rangeOK(x.WeeklyRange.Tue) && rangeOK(x.WeeklyRange.Wed) &&
+//@      rangeOK(x.WeeklyRange.Thu) && rangeOK(x.WeeklyRange.Fri) && rangeOK(x.WeeklyRange.Sat)
+//@ func (*ScheduleSettings).toInternal
+//@   property C14
+//@   nilrecv
+//@   requires schedOK(x)
+//@   modifies builtFrom
+//@   atcall Validate assert an-interval-is-its-own-days-range-in-minutes: arg0 != nil && arg0.Start == wrap(trunc(minutesOf(durVal[d.Start])), uint16) && arg0.End == wrap(trunc(minutesOf(durVal[d.End]) + real(1)), uint16)
+//@   atcall Validate set builtFrom[arg0] = d
+//@   ensures x == nil ==> c == nil && err == nil
+//@   ensures every-weekday-gets-its-own-range: x != nil && err == nil ==> c != nil && c.Week != nil && c.TimeZone != nil &&
+//@             dayFrom(c.Week[0], x.WeeklyRange.Sun) && dayFrom(c.Week[1], x.WeeklyRange.Mon) && dayFrom(c.Week[2], x.WeeklyRange.Tue) && dayFrom(c.Week[3], x.WeeklyRange.Wed) &&
+//@             dayFrom(c.Week[4], x.WeeklyRange.Thu) && dayFrom(c.Week[5], x.WeeklyRange.Fri) && dayFrom(c.Week[6], x.WeeklyRange.Sat)
+//@   loop 1 invariant -1 <= #i && #i < 7 && len(days) == 7 && c != nil && c.Week != nil && fresh(c) && fresh(c.Week) && c.TimeZone != nil
+//@   loop 1 invariant days[0] == x.WeeklyRange.Sun && days[1] == x.WeeklyRange.Mon && days[2] == x.WeeklyRange.Tue && days[3] == x.WeeklyRange.Wed && days[4] == x.WeeklyRange.Thu && days[5] == x.WeeklyRange.Fri && days[6] == x.WeeklyRange.Sat
+//@   loop 1 invariant (#i >= 0 ==> dayFrom(c.Week[0], days[0])) && (#i < 0 ==> c.Week[0] == nil) && (c.Week[0] == nil || allocated(c.Week[0]))
+//@   loop 1 invariant (#i >= 1 ==> dayFrom(c.Week[1], days[1])) && (#i < 1 ==> c.Week[1] == nil) && (c.Week[1] == nil || allocated(c.Week[1]))
+//@   loop 1 invariant (#i >= 2 ==> dayFrom(c.Week[2], days[2])) && (#i < 2 ==> c.Week[2] == nil) && (c.Week[2] == nil || allocated(c.Week[2]))
+//@   loop 1 invariant (#i >= 3 ==> dayFrom(c.Week[3], days[3])) && (#i < 3 ==> c.Week[3] == nil) && (c.Week[3] == nil || allocated(c.Week[3]))
+//@   loop 1 invariant (#i >= 4 ==> dayFrom(c.Week[4], days[4])) && (#i < 4 ==> c.Week[4] == nil) && (c.Week[4] == nil || allocated(c.Week[4]))
+//@   loop 1 invariant (#i >= 5 ==> dayFrom(c.Week[5], days[5])) && (#i < 5 ==> c.Week[5] == nil) && (c.Week[5] == nil || allocated(c.Week[5]))
+//@   loop 1 invariant (#i >= 6 ==> dayFrom(c.Week[6], days[6])) && (#i < 6 ==> c.Week[6] == nil) && (c.Week[6] == nil || allocated(c.Week[6]))
+
+//@ func (*ParentalSettings).toInternal
+//@   property C14
+//@   nilrecv
+//@   requires x != nil ==> schedOK(x.Schedule)
+//@   modifies builtFrom
+//@   ensures absent-means-off: x == nil ==> err == nil && c != nil && !c.Enabled && !c.AdultBlockingEnabled && !c.SafeSearchGeneralEnabled && !c.SafeSearchYouTubeEnabled && c.PauseSchedule == nil
+//@   ensures every-switch-from-its-own: x != nil && err == nil ==> c != nil && c.Enabled == x.Enabled && c.AdultBlockingEnabled == x.BlockAdult &&
+//@             c.SafeSearchGeneralEnabled == x.GeneralSafeSearch && c.SafeSearchYouTubeEnabled == x.YoutubeSafeSearch && (c.PauseSchedule == nil) == (x.Schedule == nil)
+
+//@ func cidrRangeToInternal
+//@   modifies nothing
+//@ func asnToInternal
+//@   modifies nothing
+//@ func access.NewDefaultProfile
+//@   modifies nothing
+//@   ensures p != nil && fresh(p)
+//@ func (*AccessSettings).toInternal
+//@   property C14
+//@   nilrecv
+//@   modifies nothing
+//@   ensures absent-or-disabled-means-no-restrictions: (x == nil || !x.Enabled) ==> istype(a, access.EmptyProfile)
+//@   ensures enabled-means-its-rules: x != nil && x.Enabled ==> isptr(a, access.DefaultProfile) && asptr(a, access.DefaultProfile) != nil
+
+//@ func (*RuleListsSettings).toInternal
+//@   property C14
+//@   nilrecv
+//@   modifies nothing
+//@   ensures absent-means-off: x == nil ==> c != nil && !c.Enabled && len(c.IDs) == 0
+//@   ensures the-switch-from-its-own: x != nil ==> c != nil && c.Enabled == x.Enabled && len(c.IDs) <= len(x.Ids)
+//@   loop 1 invariant -1 <= #i && #i < len(x.Ids) && c != nil && fresh(c) && c.Enabled == x.Enabled && len(c.IDs) <= #i + 1 && (arr(c.IDs) == 0 || fresh(arr(c.IDs)))
+//@ func filter.NewID
+//@   modifies nothing
+
+//@ func rulesToInternal
+//@   modifies nothing
+//@ func devicesToInternal
+//@   modifies nothing
+//@ func blockingModeToInternal
+//@   modifies nothing
+//@ func (*RateLimitSettings).toInternal
+//@   nilrecv
+//@   modifies nothing
+//@ func (*DeviceSettings).dedicatedIPsToInternal
+//@   modifies nothing
+
+//@ func dohPasswordToInternal
+//@   property C14 C03
+//@   requires isptr(pbp, AuthenticationSettings_PasswordHashBcrypt) ==> asptr(pbp, AuthenticationSettings_PasswordHashBcrypt) != nil
+//@   modifies nothing
+//@   ensures a-usable-authenticator-or-an-error: err == nil ==> okAuth(p)
+//@   ensures no-hash-means-any-password: pbp == nil ==> err == nil && istype(p, agdpasswd.AllowAuthenticator)
+//@ func (*AuthenticationSettings).toInternal
+//@   property C14 C03
+//@   nilrecv
+//@   requires x != nil && isptr(x.DohPasswordHash, AuthenticationSettings_PasswordHashBcrypt) ==> asptr(x.DohPasswordHash, AuthenticationSettings_PasswordHashBcrypt) != nil
+//@   modifies nothing
+//@   ensures absent-means-disabled: x == nil ==> err == nil && s != nil && !s.Enabled && okAuth(s.PasswordHash)
+//@   ensures present-means-enabled-with-an-authenticator: x != nil && err == nil ==> s != nil && s.Enabled && s.DoHAuthOnly == x.DohAuthOnly && okAuth(s.PasswordHash)
+
+//@ func (*DeviceSettings).toInternal
+//@   property C14
+//@   nilrecv
+//@   requires ds != nil && ds.Authentication != nil && isptr(ds.Authentication.DohPasswordHash, AuthenticationSettings_PasswordHashBcrypt) ==> asptr(ds.Authentication.DohPasswordHash, AuthenticationSettings_PasswordHashBcrypt) != nil
+//@   modifies nothing
+//@   ensures no-settings-no-device: ds == nil ==> err != nil
+//@   ensures a-device-is-built-from-its-own-settings: err == nil ==> dev != nil && fresh(dev) && dev.ID == ds.Id && dev.Name == ds.Name && dev.HumanIDLower == ds.HumanIdLower &&
+//@             dev.FilteringEnabled == ds.FilteringEnabled && dev.LinkedIP == ipOfBin(strof(ds.LinkedIp)) &&
+//@             dev.Auth != nil && dev.Auth.Enabled == (ds.Authentication != nil) && okAuth(dev.Auth.PasswordHash)
+
+//@ func (*DNSProfile).toInternal
+//@   property C14
+//@   nilrecv
+//@   requires x != nil && x.Parental != nil ==> schedOK(x.Parental.Schedule)
+//@   modifies builtFrom
+//@   ensures no-profile-is-an-error: x == nil ==> err != nil
+//@   ensures every-switch-from-its-own: err == nil ==> profile != nil && fresh(profile) && profile.ID == x.DnsId &&
+//@             profile.AutoDevicesEnabled == x.AutoDevicesEnabled && profile.BlockChromePrefetch == x.BlockChromePrefetch && profile.BlockFirefoxCanary == x.BlockFirefoxCanary &&
+//@             profile.BlockPrivateRelay == x.BlockPrivateRelay && profile.Deleted == x.Deleted && profile.FilteringEnabled == x.FilteringEnabled &&
+//@             profile.IPLogEnabled == x.IpLogEnabled && profile.QueryLogEnabled == x.QueryLogEnabled &&
+//@             profile.FilteredResponseTTL == (x.FilteredResponseTtl == nil ? 0 : durVal[x.FilteredResponseTtl])
+//@   ensures the-filtering-settings-are-its-own: err == nil ==> profile.FilterConfig != nil && profile.FilterConfig.Custom != nil && profile.FilterConfig.Parental != nil &&
+//@             profile.FilterConfig.RuleList != nil && profile.FilterConfig.SafeBrowsing != nil && profile.FilterConfig.Custom.ID == x.DnsId && profile.FilterConfig.Custom.UpdateTime == updTime &&
+//@             profile.FilterConfig.Custom.Enabled == (len(profile.FilterConfig.Custom.Rules) > 0) &&
+//@             profile.FilterConfig.RuleList.Enabled == (x.RuleLists != nil && x.RuleLists.Enabled) &&
+//@             profile.FilterConfig.SafeBrowsing.Enabled == (x.SafeBrowsing != nil && x.SafeBrowsing.Enabled) &&
+//@             profile.FilterConfig.SafeBrowsing.DangerousDomainsEnabled == (x.SafeBrowsing != nil && x.SafeBrowsing.BlockDangerousDomains) &&
+//@             profile.FilterConfig.SafeBrowsing.NewlyRegisteredDomainsEnabled == (x.SafeBrowsing != nil && x.SafeBrowsing.BlockNrd) &&
+//@             profile.FilterConfig.Parental.Enabled == (x.Parental != nil && x.Parental.Enabled) &&
+//@             profile.FilterConfig.Parental.AdultBlockingEnabled == (x.Parental != nil && x.Parental.BlockAdult) &&
+//@             profile.FilterConfig.Parental.SafeSearchGeneralEnabled == (x.Parental != nil && x.Parental.GeneralSafeSearch) &&
+//@             profile.FilterConfig.Parental.SafeSearchYouTubeEnabled == (x.Parental != nil && x.Parental.YoutubeSafeSearch)
